@@ -84,6 +84,19 @@ def install() -> None:
 
     queueing.worker = tapped_worker  # type: ignore[assignment]
 
+    from kopf._core.engines import peering
+    orig_peering_event = peering.process_peering_event
+
+    async def tapped_peering_event(**kwargs: Any) -> None:
+        sim = core.CURRENT
+        if sim is not None:
+            raw = kwargs.get('raw_event') or {}
+            meta = (raw.get('object') or {}).get('metadata') or {}
+            sim.log('peer-proc', _loop_name(), raw.get('type'), meta.get('name'), meta.get('resourceVersion'))
+        return await orig_peering_event(**kwargs)
+
+    peering.process_peering_event = tapped_peering_event  # type: ignore[assignment]
+
     real_wait_for = asyncio.wait_for
 
     async def probing_wait_for(fut: Any, timeout: Optional[float]) -> Any:
